@@ -84,11 +84,6 @@ Section Chain.
 End Chain.
 
 (* ---------- case protocol ---------- *)
-Definition adler32 (s : bytes) : N :=
-  let '(a, b) := fold_left (fun ab x => let a' := ((fst ab + x) mod 65521)%N in (a', ((snd ab + a') mod 65521)%N))
-                           s (1%N, 0%N) in
-  (b * 65536 + a)%N.
-
 Definition show_content (s : bytes) : bytes :=
   if Nat.leb (len s) 64 then show_hex_tok s
   else B "#" ++ show_nat (len s) ++ B "." ++ show_N (adler32 s).
